@@ -888,9 +888,8 @@ fn run_file(seed: u64, case_line: &str, stream: &[u8]) -> Outcome {
             let range = wb.worksheet_range(name).map_err(|e| ("file_sheet_rejected".to_string(), format!("{e:?}"), "Ok".to_string()))?;
             for (r, c, txt) in cells {
                 let got = range.get_value((*r, *c));
-                // an empty shared string leaves no cell (parse_label_sst skips it on purpose): absent / Empty / "" all mean ""
-                let ok = matches!(got, Some(Data::String(s)) if s == txt)
-                    || (txt.is_empty() && matches!(got, None | Some(Data::Empty)));
+                // (since fix b90dd43 a LABELSST cell naming the empty shared string reads String("") like an empty LABEL)
+                let ok = matches!(got, Some(Data::String(s)) if s == txt);
                 if !ok {
                     let kind = match c {
                         0 => "file_labelsst_cell_differs",
